@@ -711,9 +711,14 @@ func init() {
 			for _, ea := range condEdges(f) {
 				succ := ea.E.From.Succs[ea.E.Succ]
 				switch {
-				case ea.A.Kind == "cmp" && ea.A.Op == token.GTR:
-					if k, isC := constInt(ea.A.Y); isC && k == max {
-						if call := valueCall(ea.A.X); call != nil && w.isCall(call, "types#safeAddClip") && edgeOnlyFails(w, f, succ) {
+				case ea.A.Kind == "cmp" && (ea.A.Op == token.GTR || ea.A.Op == token.LSS):
+					// sum > max, or the same comparison written max < sum
+					big, small := ea.A.X, ea.A.Y
+					if ea.A.Op == token.LSS {
+						big, small = small, big
+					}
+					if k, isC := constInt(small); isC && k == max {
+						if call := valueCall(big); call != nil && w.isCall(call, "types#safeAddClip") && edgeOnlyFails(w, f, succ) {
 							bound = ea.E.From
 						}
 					}
